@@ -156,7 +156,7 @@ PROBES = [("read", ("a.dict", "abs"), {}), ("read", ("a.dict", "rel"), {"comment
           ("load", ("a.dict", "rel")), ("dump", "pd", D1),
           ("read", ("m.dict", "abs"), {}), ("read", ("m.dict", "rel"), {"comments": False}), ("parse", ("m.dict", "abs"), {}),
           ("write", "probe.xml", "w", {"000001_a": 1, "000002_a": {"000003_b": "x y"}, "c": [1, 2]}, "rel"),
-          ("parse", ("model.xml", "abs"), {"output": "xml"}), ("read", ("model.xml", "rel"), {}), ("parse", ("b.dict", "abs"), {"output": "xml", "comments": False}),
+          ("parse", ("model.xml", "abs"), {"output": "xml"}), ("read", ("model.xml", "rel"), {}), ("parse", ("dup2.dict", "abs"), {"output": "xml", "comments": False}),
           ("parse", ("schema.xml", "rel"), {"output": "xml"}),
           ("read", ("case/up.dict", "abs"), {}), ("read", ("case/up.dict", "rel"), {}),
           ("read", ("dup.dict", "abs"), {}), ("parse", ("dup.dict", "rel"), {}), ("read", ("dup2.dict", "abs"), {}), ("load", ("dup.dict", "abs"))]
